@@ -630,6 +630,9 @@ class PosInterp:
             pass
         elif isinstance(st, ast.Delete):
             for t in st.targets:
+                if isinstance(t, ast.Name) and t.id in env:
+                    del env[t.id]                  # `del text`: the local name is gone
+                    continue
                 if not isinstance(t, ast.Subscript):
                     raise self.err(t, 'del target')
                 base = self.expr(t.value, env)
